@@ -40,6 +40,23 @@ def corpus_programs(tier):
         P.append((mkprog('window/aY/%d' % n, [If(B('==', V('va'), V('vb')), Block([A(Index('brr', V('Y')), Index('arr', V('Y'))) for _ in range(n)])), A(V('vc'), C(1))]), None))
         if n % 3 == 0:
             P.append((mkprog('window/wY/%d' % n, [If(B('==', V('va'), V('vb')), Block([A(V('wa'), Index('warr', V('Y'))) for _ in range(n * 6 // 10)])), A(V('vc'), C(1))]), None))
+    # every statement kind that creates local labels of its own, between two ifs and next to each other (label counters read / bumped
+    # in the wrong order collide with a neighbour's label)
+    from cast import Tern, Switch, Break, DoWhile, For, Assign, Un, Raw
+    X, Y = V('X'), V('Y')
+    incd = lambda op, lv: (lambda: ExprS(Inc(op, False, lv())))
+    makers = [('wX--', incd('--', lambda: Index('warr', X))), ('wX++', incd('++', lambda: Index('warr', X))), ('wY--', incd('--', lambda: Index('warr', Y))), ('wY++', incd('++', lambda: Index('warr', Y))),
+              ('w2--', incd('--', lambda: Index('warr', C(2)))), ('wa--', incd('--', lambda: V('wa'))), ('wa++', incd('++', lambda: V('wa'))), ('ha=sa', lambda: A(V('ha'), V('sa'))), ('ha=sarrX', lambda: A(V('ha'), Index('sarr', X))),
+              ('tern', lambda: A(V('vb'), Tern(V('va'), C(1), C(2)))), ('tern16', lambda: A(V('wa'), Tern(V('va'), V('wb'), V('wc')))), ('not', lambda: A(V('vb'), Un('!', V('va')))), ('land', lambda: A(V('vb'), B('&&', V('va'), V('vc')))),
+              ('cmp16', lambda: If(B('<=', V('wa'), V('wb')), A(V('vb'), C(1)))), ('cmpset', lambda: A(V('vb'), B('<', V('va'), V('vc')))), ('scmp', lambda: If(B('<', V('sa'), V('sb')), A(V('vb'), C(1)))),
+              ('switch', lambda: Switch(V('va'), [(1, [A(V('vb'), C(1)), Break()]), (None, [A(V('vb'), C(2))])])), ('do', lambda: DoWhile(Block([ExprS(Inc('--', False, V('vd')))]), V('vd'))),
+              ('for', lambda: For(Assign(V('vd'), '=', C(0)), B('<', V('vd'), C(2)), Inc('++', False, V('vd')), A(V('vb'), V('vd')))), ('cs', lambda: Raw('csleep', 7)), ('shl-var', lambda: A(V('wa'), C(3), '<<=')), ('w-=', lambda: A(V('wa'), V('vb'), '-='))]
+    iff = lambda n: If(V('va'), A(V(n), C(1)))
+    for (n1, m1) in makers:
+        P.append((mkprog('labelmix/if+%s+if' % n1, [iff('vb'), m1(), iff('vc')]), None))
+        P.append((mkprog('labelmix/in-if/%s' % n1, [If(V('va'), Block([m1(), A(V('vc'), C(1))]), Block([m1()]))]), None))
+        for (n2, m2) in makers:
+            if families.stable_pick(n1 + '+' + n2, 100, 35 if tier == 'quick' else 100): P.append((mkprog('labelmix/%s+%s' % (n1, n2), [m1(), m2(), m1()]), None))
     # near-valid statements the generator might pass through to the assembler: accepted => must assemble
     class RawProg:
         def __init__(self, pid, text): self.pid, self.text, self.globs, self.funcs = pid, text, [], []
